@@ -37,17 +37,21 @@ def meta_of(inc):
 class Frame:
     """Affine embedding of the lattice into pixel coordinates: pix = v/U * scale + t (t only for positions)."""
 
-    def __init__(self, U, scale=1.0, tx=0.0, ty=0.0, av=0):
-        self.U, self.scale, self.tx, self.ty, self.av = U, scale, tx, ty, av
+    def __init__(self, U, scale=1.0, tx=0.0, ty=0.0, av=0, ints=False):
+        self.U, self.scale, self.tx, self.ty, self.av, self.ints = U, scale, tx, ty, av, ints
+
+    def _n(self, f):
+        # with ints=True whole numbers are handed to the package as Python ints (exercises integer arithmetic paths)
+        return int(f) if self.ints and f == int(f) else f
 
     def len(self, v):
-        return v / self.U * self.scale
+        return self._n(v / self.U * self.scale)
 
     def x(self, v):
-        return v / self.U * self.scale + self.tx
+        return self._n(v / self.U * self.scale + self.tx)
 
     def y(self, v):
-        return v / self.U * self.scale + self.ty
+        return self._n(v / self.U * self.scale + self.ty)
 
 
 def build(s, fr, top=True):
@@ -223,3 +227,52 @@ def _fp(v):
     if isinstance(v, (int, float, np.generic)):
         return ('n', repr(v))
     return ('o', repr(v))
+
+
+def perturb(s):
+    """Another valid shape of the same class (different sizes, centre, direction)."""
+    o = dict(s)
+    if s['k'] == 'compound':
+        o['a'] = perturb(s['a'])
+        o['b'] = perturb(s['b'])
+        return o
+    for f in ('cx', 'cy', 'x1', 'y1', 'x2', 'y2'):
+        if f in o:
+            o[f] = o[f] + 3
+    for f in ('r', 'w', 'h'):
+        if f in o:
+            o[f] = o[f] + 2
+    for f in ('r2', 'w2', 'h2'):
+        if f in o:
+            o[f] = o[f] + 5
+    if 'd' in o:
+        o['d'] = [-o['d'][1], o['d'][0], o['d'][2]]
+    if s['k'] == 'polygon':
+        o['vs'] = [[v[0] + 2, v[1] - 1] for v in s['vs']]
+    return o
+
+
+def build_via_assign(s, fr, exercise):
+    """Build a region with other parameters, use it once, then assign the wanted parameters one by one:
+    the result must behave exactly like a freshly built region (no state may survive from before)."""
+    target = build(s, fr)
+    reg = build(perturb(s), fr)
+    exercise(reg)
+    _assign_from(reg, target)
+    return reg
+
+
+def _assign_from(reg, target):
+    from regions.core.compound import CompoundPixelRegion
+    if isinstance(reg, CompoundPixelRegion):
+        _assign_from(reg.region1, target.region1)
+        _assign_from(reg.region2, target.region2)
+        return
+    params = list(reg._params)
+    # annuli: assign in an order that keeps inner < outer at every step is not required by the package
+    for p in params:
+        setattr(reg, p, getattr(target, p))
+    for k, v in dict(target.meta).items():
+        reg.meta[k] = v
+    for k in [k for k in reg.meta if k not in target.meta]:
+        del reg.meta[k]
